@@ -67,7 +67,9 @@ OverlappedTimeoutCallback(i, p) ==
 Via(p) == IF InCb(p) THEN cbs[p][Len(cbs[p])].kind ELSE "start"
 
 N == cfg.maxattempts
-Rto == cfg.rto
+\* the goroutine that runs start instance s in the gated replay ("s1", "s2"); free-running callers have other names
+CallerOf(s) == IF s = 1 THEN "s1" ELSE IF s = 2 THEN "s2" ELSE "?"
+RtoOf(s) == IF s \in DOMAIN st THEN st[s].rto ELSE cfg.rto
 
 OkWrites(i) == SelectSeq(Get(ws, i, <<>>), LAMBDA w : w.ok)
 
@@ -76,7 +78,7 @@ Step(n, e) ==
          /\ cfg' = [maxattempts |-> e.maxattempts, rto |-> e.rto, closeconn |-> e.closeconn, fallback |-> e.fallback]
          /\ Fresh
     [] e.k = "start_call" ->
-         /\ st' = Set(st, e.s, [id |-> e.id, line |-> n, ret |-> "none", calls |-> 0, afterClose |-> closeRet, t0 |-> e.t])
+         /\ st' = Set(st, e.s, [id |-> e.id, line |-> n, ret |-> "none", calls |-> 0, afterClose |-> closeRet, t0 |-> e.t, rto |-> cfg.rto])
          /\ UNCHANGED << cfg, ws, ended, cbs, win, closeRet, closeOK, connCloses, lastDel, exited, lastNow, pendGarbage, cbSeen, k4, k2, pend, closing, texit >>
     [] e.k = "start_ret" ->
          LET s == st[e.s] IN
@@ -87,13 +89,19 @@ Step(n, e) ==
                                  [s |-> e.s, calls |-> s.calls])
          /\ st' = Set(st, e.s, [s EXCEPT !.ret = e.err])
          /\ UNCHANGED << cfg, ws, ended, cbs, win, closeRet, closeOK, connCloses, lastDel, exited, lastNow, pendGarbage, cbSeen, k4, k2, pend, closing, texit >>
+    [] e.k = "setrto" ->
+         \* Client.SetRTO: later Starts snapshot the new value (the snapshot is taken right after the clock reading)
+         /\ cfg' = [cfg EXCEPT !.rto = e.v]
+         /\ UNCHANGED << st, ws, ended, cbs, win, closeRet, closeOK, connCloses, lastDel, exited, lastNow, pendGarbage, cbSeen, k4, k2, pend, closing, texit >>
     [] e.k = "now" ->
          /\ lastNow' = Set(lastNow, e.p, e.t)
+         /\ st' = LET cands == { s \in DOMAIN st : ~InCb(e.p) /\ st[s].ret = "none" /\ CallerOf(s) = e.p } IN
+                  [s \in DOMAIN st |-> IF s \in cands THEN [st[s] EXCEPT !.rto = cfg.rto, !.t0 = e.t] ELSE st[s]]
          /\ win' = IF InCb(e.p)
                    THEN LET top == cbs[e.p][Len(cbs[e.p])] IN
                         Set(win, e.p, [id |-> top.id, reg |-> e.t, endedBefore |-> top.id \in ended])
                    ELSE win
-         /\ UNCHANGED << cfg, st, ws, ended, cbs, closeRet, closeOK, connCloses, lastDel, exited, pendGarbage, cbSeen, k4, k2, pend, closing, texit >>
+         /\ UNCHANGED << cfg, ws, ended, cbs, closeRet, closeOK, connCloses, lastDel, exited, pendGarbage, cbSeen, k4, k2, pend, closing, texit >>
     [] e.k = "cb" ->
          /\ cbs' = Set(cbs, e.p, Append(Get(cbs, e.p, <<>>), [kind |-> e.kind, id |-> e.id, line |-> n]))
          /\ cbSeen' = cbSeen \cup {e.id}
@@ -119,8 +127,8 @@ Step(n, e) ==
               /\ Require(e.raw = Trace[st[s].line].raw, n, "transmission-differs-from-message-at-start",
                          [id |-> i, transmission |-> k, got_len |-> Len(e.raw), want_len |-> Len(Trace[st[s].line].raw)])
               /\ Require(Len(prior) + 1 <= N + 1, n, "too-many-transmissions", [id |-> i, count |-> Len(prior) + 1, limit |-> N + 1])
-              /\ Require(~InOrder \/ k = 0 \/ reg > prevreg + k * Rto, n, "retransmitted-before-deadline",
-                         [id |-> i, transmission |-> k, at |-> reg, previous |-> prevreg, via |-> Via(e.p), k4 |-> i \in k4])
+              /\ Require(~InOrder \/ k = 0 \/ reg > prevreg + k * RtoOf(s), n, "retransmitted-before-deadline",
+                         [id |-> i, transmission |-> k, at |-> reg, previous |-> prevreg, rto |-> RtoOf(s), via |-> Via(e.p), k4 |-> i \in k4])
               /\ Require(~InOrder \/ ~(i \in ended /\ k >= 1), n, "write-after-end",
                          [id |-> i, transmission |-> k, via |-> Via(e.p), k4 |-> i \in k4,
                           window_opened_before_end |-> (e.p \in DOMAIN win /\ ~win[e.p].endedBefore)])
@@ -144,7 +152,7 @@ Step(n, e) ==
               /\ Require(e.kind \in {"msg", "timeout", "writeerr", "closed"}, n, "unexpected-completion-kind", [s |-> e.s, kind |-> e.kind, k4 |-> i \in k4])
          /\ (OnO("C11") /\ e.kind = "timeout") =>
                  \* all N retransmissions were made and the clock passed the deadline of the last one
-                 Require(Len(SelectSeq(Get(ws, i, <<>>), LAMBDA w : w.retx)) = N /\ e.t > lastreg + (N + 1) * Rto, n, "timeout-before-last-deadline",
+                 Require(Len(SelectSeq(Get(ws, i, <<>>), LAMBDA w : w.retx)) = N /\ e.t > lastreg + (N + 1) * s.rto, n, "timeout-before-last-deadline",
                          [s |-> e.s, transmissions |-> Len(Get(ws, i, <<>>)), limit |-> N + 1, at |-> e.t, last |-> lastreg, k4 |-> i \in k4])
          /\ On("C12") =>
               /\ Require(e.id = i, n, "event-for-another-transaction", [s |-> e.s, handler_id |-> i, event_id |-> e.id, k4 |-> i \in k4])
